@@ -416,6 +416,43 @@ fn two_template_stream(ipfix: bool, i: u64) -> (Vec<Vec<u8>>, Vec<u8>) {
     (calls, protos)
 }
 
+/// one projected field (index `which` of SPECS) holds all-zero / all-ones in record 1; record 0 is byte-distinct
+fn boundary_stream(ipfix: bool, i: u64) -> (Vec<Vec<u8>>, Vec<u8>) {
+    let d = digits(i, &[11, 2, 3]);
+    let which = d[0] as usize;
+    let target = fs(SPECS[which].0, SPECS[which].1);
+    let fields: Vec<FieldSpec> = match d[2] {
+        0 => subset_fields(3, 3, 127, 0),
+        1 => {
+            // without the IPv6 (or, if the target is an IPv6 field, without the IPv4) counterpart
+            let (sa, da) = if which == 1 || which == 3 { (2, 2) } else { (1, 1) };
+            subset_fields(sa, da, 127, 0)
+        }
+        _ => vec![target, fs(2, 2)],
+    };
+    let mut protos = vec![];
+    let mut body = vec![];
+    for r in 0..2 {
+        for (k, f) in fields.iter().enumerate() {
+            let w = f.len as usize;
+            let mut val = if f.ty == 4 { vec![[6u8, 17][r]] } else { crate::alphabet::rec_value(r, k, w) };
+            if r == 1 && *f == target {
+                val = vec![if d[1] == 0 { 0 } else { 0xff }; w];
+            }
+            if f.ty == 4 {
+                protos.push(val[0]);
+            }
+            body.extend(val);
+        }
+    }
+    let calls = if ipfix {
+        vec![ipfix_message(&IpfixMsg::new(vec![IpfixSet::Tpl(vec![IpfixTpl { id: 256, fields }], 0), IpfixSet::Data(256, body)]))]
+    } else {
+        vec![v9_packet(&V9Pkt::new(vec![V9Set::Tpl(vec![V9Tpl { id: 256, fields }], 0), V9Set::Data(256, body)]))]
+    };
+    (calls, protos)
+}
+
 pub fn spaces(tier: &str) -> Vec<Box<dyn Space>> {
     let thorough = tier == "thorough";
     let mut v: Vec<Box<dyn Space>> = vec![];
@@ -462,6 +499,19 @@ pub fn spaces(tier: &str) -> Vec<Box<dyn Space>> {
                 judge_stream(&calls, &protos)
             },
             move |i| super::stream::desc_calls(&two_template_stream(ipfix, i).0),
+        ));
+    }
+    // boundary values of every projected field: all-zero and all-ones, in the full template, in a template without the
+    // other address family, and alone
+    for ipfix in [false, true] {
+        v.push(space(
+            &format!("{}-boundary-values-of-projected-fields", if ipfix { "ipfix" } else { "v9" }),
+            11 * 2 * 3,
+            move |i| {
+                let (calls, protos) = boundary_stream(ipfix, i);
+                judge_stream(&calls, &protos)
+            },
+            move |i| super::stream::desc_calls(&boundary_stream(ipfix, i).0),
         ));
     }
     // flattening helper over chained buffers
